@@ -5,16 +5,23 @@ func init() {
 		Property: "C19",
 		Jobs: func(tier string) []*Job {
 			tags := "verif,noasm"
-			return []*Job{
+			jobs := []*Job{
 				mkJob("header", "H_C19_header", "", tags, P()),
 				mkJob("magic", "H_C19_magic", "", tags, P()),
 			}
+			// Size() across Reset: a Reader that has read a frame with a content size and is Reset
+			// onto a frame without one (and vice versa) reports the new frame's field
+			for _, sizeopt := range []int{0, 1} {
+				jobs = append(jobs, fmk("H_life_r", P("L", 4, "trail", 0, "n", 3, "period", 0, "bs", 4, "bc", 0, "cc", 1, "sizeopt", sizeopt, "level", 0, "legacy", 0, "deliv", 0, "k", 0)))
+			}
+			return jobs
 		},
 		Bounds: func(tier string) []string {
 			return []string{
 				"one symbolic header: FLG and BD bytes (2^16), eight content-size bytes (2^64), checksum byte (2^8); content-size layout present/absent follows the FLG bit inside the run: the complete space, no enumeration",
 				"first word: 32 symbolic bits, all values outside the 18 magic values",
 				"ValidFrameHeader on the header bytes; Reader.Read and Reader.Size on header + end mark (+ content checksum of the empty content)",
+				"Size() under every 4-call sequence of Read/WriteTo/Size/Reset, where Reset alternates between a frame with and a frame without the content-size field (symbolic 64-bit value)",
 			}
 		},
 		Outside: []string{"truncated headers (C06)", "Reader concurrency > 1"},
